@@ -61,6 +61,8 @@ def features(scs, feat):
                     feat["struct-name-clash"] += 1
             if "." in t:
                 feat["namespace"] += 1
+            if len(cs) > 1 and any("_" in c["name"] and c["name"].replace("_", "").lower() == t.lower() for c in cs) and not all(not c["params"] for c in cs):
+                feat["mangled-name-clash"] += 1
         for d in D:
             bits = [p["bit"] for p in d["params"] if p["bit"] >= 0 and p["base"] != "true"]
             if len(bits) != len(set(bits)):
@@ -82,7 +84,7 @@ def features(scs, feat):
 
 NEEDED = ["enum-type", "enum-name-clash", "single-constructor-type", "multi-constructor-type", "struct-name-clash", "namespace", "shared-flag-bit",
           "true-flag", "flags-word-at-0", "flags-word-at-1", "function-returns-Bool", "function-returns-object", "function-returns-vector-int",
-          "function-returns-vector-object", "function-returns-enum", "function-over-5-params", "function-upto-5-params"] + \
+          "function-returns-vector-object", "function-returns-enum", "function-returns-vector-Bool", "function-returns-vector-enum", "mangled-name-clash", "function-over-5-params", "function-upto-5-params"] + \
          ["scalar-" + b for b in ("int", "long", "double", "string", "bytes", "Bool", "boxed")] + \
          ["vector-of-" + b for b in ("int", "long", "double", "string", "bytes", "Bool", "boxed")]
 
